@@ -16,7 +16,9 @@ CONSTANTS Clients,     \* client ids
           Filters,     \* universe of filter values offered to subscribe (well- and malformed)
           Pairs,       \* universe of two-filter SUBSCRIBE / UNSUBSCRIBE packets (sequences of length 2)
           Topics,      \* probe topic names
-          MaxOps       \* bound on the history length (model checking only)
+          MaxOps,      \* bound on the history length (model checking only)
+          Persistent   \* the clients that connect with cleanSession=false: their connection can drop and be
+                       \* re-established with the session (and so every subscription, with its QoS) resumed
 
 QoS == {0, 1}
 
@@ -85,7 +87,8 @@ Unsubscribe(c, fs) ==
     /\ last' = [a |-> "unsub", c |-> c, fs |-> fs]
     /\ n' = n + 1
 
-(* the client's (clean) session ends: none of its subscriptions stays live *)
+(* the client's session ends (a clean session with its connection; a persistent one when it is        *)
+(* discarded): none of its subscriptions stays live                                                    *)
 Disconnect(c) ==
     /\ subs' = {s \in subs : s.c # c}
     /\ last' = [a |-> "disc", c |-> c]
@@ -98,6 +101,16 @@ Takeover(c) ==
     /\ last' = [a |-> "takeover", c |-> c]
     /\ n' = n + 1
 
+(* the network connection of a client with a persistent session (cleanSession=false) ends and the     *)
+(* client connects again with cleanSession=false: the session is resumed - every subscription is live   *)
+(* again as it was, filter by filter with the QoS it was made with.  (What is routed while the client    *)
+(* is away is not looked at: the step is the whole drop + reconnect.)                                    *)
+Resume(c) ==
+    /\ c \in Persistent
+    /\ UNCHANGED subs
+    /\ last' = [a |-> "resume", c |-> c]
+    /\ n' = n + 1
+
 Next ==
     /\ n < MaxOps
     /\ \E c \in Clients :
@@ -106,6 +119,7 @@ Next ==
        \/ \E fs \in FilterSeqs : Unsubscribe(c, fs)
        \/ Disconnect(c)
        \/ Takeover(c)
+       \/ Resume(c)
 
 Spec == Init /\ [][Next]_vars
 
@@ -126,6 +140,9 @@ NoResidue == subs = {} => \A t \in Topics : DOMAIN Route(t) = {}
 (* a step of client c never changes what other clients are routed *)
 Others == [][\A c \in Clients : last'.c # c =>
                  {s \in subs' : s.c = c} = {s \in subs : s.c = c}]_vars
+
+(* a resumed session has every subscription it had, each with its own QoS *)
+ResumeKeeps == [][last'.a = "resume" => subs' = subs]_vars
 
 (* ---------------------------- the curated universe of DESIGN 5/C14 ---------------------------- *)
 LA == <<"a">>   LB == <<"b">>   LC == <<"c">>   LE == <<>>   LP == <<"+">>   LH == <<"#">>
